@@ -94,7 +94,15 @@ class C06(flow.Spec):
                 ops.append([0, pg, fr, fl])
             elif r < 0.60:
                 mapped = [o[1] for o in ops if o[0] == 0 and o[1] in win]
-                pg = rng.choice(mapped) if mapped and rng.random() < 0.6 else rng.choice(win + win + outside)
+                t = rng.random()
+                if mapped and t < 0.5:
+                    pg = rng.choice(mapped)
+                elif mapped and t < 0.7:
+                    # a page that was never mapped but shares its tables with a mapped one (non-present leaf / level)
+                    q = rng.choice(mapped)
+                    pg = rng.choice([q ^ 1, q ^ 0x80, q ^ (1 << 9), q ^ (1 << 18)])
+                else:
+                    pg = rng.choice(win + win + outside)
                 addr = ((pg << 12) & M64) | rng.choice([0, 8, 0xfff, rng.randrange(4096)])
                 if rng.random() < 0.05:
                     addr = rng.choice([0, 0x1000, M64, rng.randrange(1 << 64) & ~(0xfff << 35)])
@@ -124,7 +132,14 @@ class C06(flow.Spec):
                 ops.append([1, rng.choice(win + outside)])
             elif r < 0.80:
                 pg = rng.choice(win)
-                ops.append([17, pg, rng.randrange(3), rng.choice([P, HUGE, HUGE, P | HUGE, RW, US])])
+                if rng.random() < 0.3:
+                    ops.append([18, pg, rng.randrange(4), pc.extra_mask(rng)])
+                else:
+                    m = 0
+                    for b, pr in ((P, 0.25), (HUGE, 0.25), (RW, 0.5), (COW, 0.5), (NX, 0.3), (US, 0.2)):
+                        if rng.random() < pr:
+                            m |= b
+                    ops.append([17, pg, rng.randrange(3), m or RW])
             elif r < 0.83:
                 ops.append([14, rng.randrange(1 << 64)])
             elif r < 0.835:
